@@ -293,6 +293,28 @@ Fixpoint gasrule_txs (e : env) (l : list (tx * oracle * obs)) (i : nat) : option
 
 Definition gasrule_case (c : case) : option nat := gasrule_txs (c_env c) (c_txs c) 0.
 
+(* An admitted transaction may end without a response (its whole gas limit burnt, nothing executed) only for one of the
+   three reasons the code has: gas limit below intrinsic gas, a successful execution whose value cannot be credited to a
+   blocked address, or the block gas meter overflowing. Otherwise it must execute and answer - whoever proposed the block
+   and whatever state that validator is in. (Without this clause "admitted, charged everything, not executed" would satisfy
+   the accounting identity with gasUsed = gasLimit.) *)
+Definition must_run_ok (e : env) (t : tx) (o : oracle) (pre : view) (code_ok : bool) : bool :=
+  if negb (admit_reason e (v_sbal pre) (v_nonce pre) (v_bgas pre) t =? 0) then true
+  else
+    let fees := eff_price e t * t_gas t in
+    let failed := o_failed o || (v_sbal pre - fees <? t_value t) in
+    let gu := final_gas_used e t (temp_gas_used t o) in
+    (t_gas t <? t_intr t) || (negb failed && t_blocked t && (0 <? t_value t)) ||
+    ((0 <=? e_blim e) && (e_blim e <? v_bgas pre + gu)) || code_ok.
+
+Fixpoint mustrun_txs (e : env) (l : list (tx * oracle * obs)) (i : nat) : option nat :=
+  match l with
+  | [] => None
+  | (t, o, ob) :: r => if must_run_ok e t o (ob_pre ob) (ob_code_ok ob) then mustrun_txs e r (S i) else Some i
+  end.
+
+Definition mustrun_case (c : case) : option nat := mustrun_txs (c_env c) (c_txs c) 0.
+
 (* "is not included and costs nothing", read for the block as well (finding F2, fixed 07834a8): a transaction refused by one
    of the admission checks the property names (block gas left, price, balance, gas above the block limit, nonce: reasons 1
    and 3-10) must leave the block gas meter exactly where it was. Reason 2 (a malformed message refused by
